@@ -16,6 +16,15 @@ CLAIMED = {
              "endpoint constants are proof obligations. Tied to the real proxy_authorizer::authorize (direct calls) and to the real listener "
              "(mock WireServer/HostGA stay silent).",
         design="§7 C03", technique=E2E_TECH),
+    "C04": dict(
+        text="Lean theorems: both signing routes give the same canonical string; what is signed is what is sent (the host, applying the "
+             "same canonicalisation to the method/URL/headers/body it receives, obtains exactly the signed string; the authorization "
+             "header is excluded); header value format and key id; signed unless one of the two exempt method/URL pairs; layout and "
+             "header coverage; kernel-checked negative witnesses for the two uncovered shapes (known findings F3). The order lemmas "
+             "(strict weak order, insertion sort commutes with filtering) are proved, not assumed. Tied to the real as_sig_input and "
+             "build_request (function level, with a removal-based coverage oracle) and e2e: the mock host's received bytes are "
+             "re-canonicalised by the Lean model and the MAC recomputed with hashlib.",
+        design="§7 C04, §8 F3 F9", technique=E2E_TECH),
     "C05": dict(
         text="Lean theorems for every client header list (any number of copies of the proxy-owned names, any case): exactly one claims "
              "header with the attributed elevation, exactly one date header with the proxy clock, and on signed requests exactly the "
@@ -111,6 +120,6 @@ def main():
     json.dump(m, open(os.path.join(VERIF, "MANIFEST.json"), "w"), indent=1)
 
 NA = {}
-HOOK_COMMITS = ["e53c7a7", "ad3b7ad", "lints: see git log --grep 'verif hook' in /repo"]
+HOOK_COMMITS = ["e53c7a7", "ad3b7ad", "3a80227"]
 if __name__ == "__main__":
     main()
